@@ -296,18 +296,31 @@ def step (cfg : Config) (s : State) : Op → State
 
 def run (cfg : Config) (ops : List Op) : State := ops.foldl (step cfg) init
 
-/-- A whole successful `Get(d)` followed by a clean `Release`, with every backing
-call succeeding, executed without interference (used for draining). -/
+/-! ### Draining (composite of the steps above; used to state "eventually written") -/
+
+/-- All Puts of `Get` `g` succeed, one after the other. -/
 def putAllOk (cfg : Config) (g : Nat) : State → List Write → State
   | s, [] => s
   | s, w :: ws => putAllOk cfg g (putDone cfg s g w.h .ok) ws
 
-def fullGet (cfg : Config) (s : State) (g d : Nat) : State :=
-  let s := getBegin s g d
+/-- All clients have released their handles and no `Get` is in flight. -/
+def quiescent (s : State) : Prop := s.gets = [] ∧ ∀ h, s.held h = 0
+
+/-- A whole `Get(e)` whose backing calls all succeed, run without interference,
+followed by a clean `Release` of the handle it returned. -/
+def fullGetRelease (cfg : Config) (s : State) (g e : Nat) : State :=
+  let s := getBegin s g e
   let s := readDone s g true
   let s := match lookupG s.gets g with
     | some r => putAllOk cfg g s r.writes
     | none => s
-  getEnd cfg s g
+  match lookupG s.gets g with
+  | some r => release cfg (getEnd cfg s g) (getEndHandle s r) false
+  | none => s
+
+/-- `drain cfg e s gs`: one `fullGetRelease` per `Get` id in `gs`. -/
+def drain (cfg : Config) (e : Nat) : State → List Nat → State
+  | s, [] => s
+  | s, g :: gs => drain cfg e (fullGetRelease cfg s g e) gs
 
 end BbRe.ProtoStore
